@@ -81,7 +81,14 @@ def run(repo: Repo, rep: Report, tier: str) -> None:
     texts = [norm(c) for c in flat]
     rep.check(f"isinstance({val}, C_CANCEL)" in texts, "store-key", fq, f"insertion guarded by {texts}", "only C-CANCEL primitives may be stored as cancel requests", mod=dm, node=s)
     bound = [c for c in flat if isinstance(c, ast.Compare) and norm(c.left) == "len(self.cancel_req)" and isinstance(c.ops[0], (ast.Lt, ast.LtE)) and isinstance(c.comparators[0], ast.Constant) and isinstance(c.comparators[0].value, int)]
-    rep.check(len(bound) == 1 and 1 <= bound[0].comparators[0].value <= 1000, "store-key", fq, f"size bound {[norm(b) for b in bound]}", "the number of stored cancel requests must be bounded (a peer could otherwise grow it without limit) and at least one must fit", mod=dm, node=s)
+    sizes = check_cancel_never_queued(repo, rep, "never-queued")
+    if sizes:
+        # decided by the evaluation: the table never grows past its limit whatever arrives, and an empty one takes a cancel
+        grows = [k for k, v in sizes.items() if k[0] >= 10 and v > k[0]]
+        okb = not grows and sizes.get((0, False)) == 1 and max(v for k, v in sizes.items() if k[0] <= 10) <= 1000
+        rep.check(okb, "store-key", fq, f"table sizes after one more C-CANCEL: {dict(sorted(sizes.items()))}", "the number of stored cancel requests must be bounded (a peer could otherwise grow it without limit) and at least one must fit", mod=dm, node=s)
+    else:
+        rep.check(len(bound) == 1 and 1 <= bound[0].comparators[0].value <= 1000, "store-key", fq, f"size bound {[norm(b) for b in bound]}", "the number of stored cancel requests must be bounded (a peer could otherwise grow it without limit) and at least one must fit", mod=dm, node=s)
     # not also queued: msg_queue.put must be in the orelse chain of the insertion's if
     top = enclosing(s, (ast.If,))
     puts = [c for c in walk_no_nested(rp) if isinstance(c, ast.Call) and dotted(c.func) == "self.msg_queue.put"]
@@ -187,3 +194,67 @@ def run(repo: Repo, rep: Report, tier: str) -> None:
             t = s.targets[0] if isinstance(s, ast.Assign) else s.target
             if norm(t) == "cancel_req" and getattr(s, "value", None) is not None:
                 rep.fail("per-association", "dimse.DIMSEServiceProvider", s, "cancel_req is a class attribute with a mutable value: every association in the process shares one dictionary, so a C-CANCEL received on one association is reported to (and consumed by) an operation with the same message id on another", mod=dm, node=s)
+
+
+def check_cancel_never_queued(repo, rep, rule: str) -> None:
+    """A C-CANCEL is not a service request: Association._serve_request() reads `is_valid_request`, which C_CANCEL
+    does not have - one that reaches the DIMSE message queue kills the association thread when the reactor gets
+    to it (the operation it names is never cancelled, and a later A-RELEASE-RQ is never answered).
+    receive_primitive() is evaluated (sa/minipy.py) on a completed message that converts to a C_CANCEL, with 0, 1,
+    9, 10, 11 and 30 cancels already pending, for a new Message ID and for one that is already pending: nothing is
+    ever put on msg_queue, no event is raised, and below the limit the cancel is stored under the ID it names."""
+    from ..minipy import Interp, Obj, Raised, Unsupported
+
+    rep.rule(rule, "receive_primitive never puts a C-CANCEL on the message queue (evaluated for every fill level of cancel_req, new and repeated IDs)")
+    dm = repo.mod("dimse")
+    fn = repo.func("dimse", "DIMSEServiceProvider.receive_primitive")
+    fq = "dimse.DIMSEServiceProvider.receive_primitive"
+    n = 0
+    sizes = {}
+    for pending in (0, 1, 9, 10, 11, 30):
+        for repeated in (False, True):
+            if repeated and pending == 0:
+                continue
+            queued, events = [], []
+            msg_id = 1000 if repeated else 7
+            cancel = Obj("C_CANCEL", {"MessageIDBeingRespondedTo": msg_id, "@bases": ("DIMSEPrimitive",)})
+            message = Obj("DIMSEMessage", {"context_id": 3, "encoded_command_set": None, "data_set": None, "_data_set_file": None, "_data_set_path": None, "@decode_msg": lambda s_, *a: True, "@message_to_primitive": lambda s_: cancel})
+            q = Obj("Queue", {"@put": lambda s_, item, *a, queued=queued: queued.append(item), "@put_nowait": lambda s_, item, queued=queued: queued.append(item)})
+            evq = Obj("Queue", {"@put": lambda s_, item, *a, events=events: events.append(item)})
+            table = {1000 + k: Obj("C_CANCEL", {"MessageIDBeingRespondedTo": 1000 + k}) for k in range(pending)}
+            assoc = Obj("Association", {"is_established": True, "_serve_request": None})
+            me = Obj("DIMSEServiceProvider", {"message": message, "cancel_req": table, "msg_queue": q, "dul": Obj("DUL", {"event_queue": evq}), "assoc": assoc})
+            g = {"evt": Obj("evt", {"@trigger": lambda s_, *a, **k: None, "EVT_DIMSE_RECV": "EVT_DIMSE_RECV"}), "BytesIO": lambda *a: ("BytesIO",), "DimseServiceType": None}
+            for cn in repo.mod("dimse_primitives").classes:
+                g.setdefault(cn, cn)
+            g.setdefault("threading", Obj("threading", {"@Thread": lambda s_, *a, **k: Obj("Thread", {"@start": lambda t_: None})}))
+            g.setdefault("make_target", lambda f_: f_)
+            ci_ = dm.classes.get("DIMSEServiceProvider")
+
+            def resolver(cls, name, ci_=ci_):
+                if cls != "DIMSEServiceProvider" or ci_ is None or name == "receive_primitive":
+                    return None
+                _, f_ = repo.lookup_method(ci_, name, "method")
+                return None if f_ is None else (f_, any(norm(d_) == "staticmethod" for d_ in f_.decorator_list))
+
+            it = Interp(g, classes={"DIMSEMessage": lambda: message}, method_resolver=resolver)
+            inst = f"{pending} cancels pending, a C-CANCEL naming {'an ID that is already pending' if repeated else 'a new ID'}"
+            try:
+                it.call_function(fn, {"self": me, "primitive": Obj("P_DATA", {})})
+            except Unsupported as exc:
+                rep.defer(f"{fq}: not evaluable with stand-ins ({exc})")
+                return {}
+            except Raised as r:
+                rep.fail(rule, fq, f"[{inst}] raises {r.kind}", f"receiving a C-CANCEL raises {r.kind} in the provider thread", mod=dm, node=fn)
+                continue
+            n += 1
+            ok = not queued and not events
+            rep.check(ok, rule, fq, f"[{inst}] msg_queue gets {len(queued)} item(s), events {events}", "a C-CANCEL reaches the DIMSE message queue (or ends the association): the reactor hands it to _serve_request() as if it were a service request, where reading `is_valid_request` raises AttributeError and the association thread dies - the peer's later A-RELEASE-RQ is never answered", mod=dm, node=fn)
+            sizes[(pending, repeated)] = len(table)
+            lost = [k for k in range(1000, 1000 + pending) if k not in table]
+            rep.check(not lost, rule, fq, f"[{inst}] pending cancels still stored afterwards: {pending - len(lost)} of {pending}", f"receiving another C-CANCEL drops {len(lost)} cancel(s) that were already pending (Message IDs {lost[:3]}): a cancel that named the operation in progress is lost to later, unrelated ones - the handler is never told", mod=dm, node=fn)
+            if pending < 10 and not repeated:
+                st = table.get(msg_id)
+                rep.check(st is cancel, rule, fq, f"[{inst}] stored under its own Message ID: {st is cancel}", "below the limit the C-CANCEL must be stored under the Message ID it names", mod=dm, node=fn)
+    rep.floor("C-CANCEL receptions evaluated", n, 8)
+    return sizes
